@@ -3,10 +3,12 @@ package node
 import (
 	"errors"
 	"fmt"
+	"iter"
 
 	"github.com/NethermindEth/juno/blockchain"
 	"github.com/NethermindEth/juno/core"
 	"github.com/NethermindEth/juno/core/felt"
+	"github.com/NethermindEth/juno/core/pending"
 	"github.com/NethermindEth/juno/db"
 
 	"jsim/chaingen"
@@ -511,14 +513,14 @@ func keyList(xs [][]felt.Felt) [][]string {
 }
 
 type flatEvent struct {
-	Block    uint64
-	Hash     string
-	TxHash   string
-	TxIndex  uint
-	EvIndex  uint
-	From     string
-	Keys     []string
-	Data     []string
+	Block   uint64
+	Hash    string
+	TxHash  string
+	TxIndex uint
+	EvIndex uint
+	From    string
+	Keys    []string
+	Data    []string
 }
 
 // naive scan of the model's receipts
@@ -622,6 +624,66 @@ func (k *checker) QueryEvents(f evFilter, chunk uint64, limit uint, pre func() (
 		tok = &n
 	}
 	return out, pages
+}
+
+// preChain is the pre-confirmed chain handed to the event filter: blocks above the canonical head,
+// oldest first, without hash (a pre-confirmed block has none yet).
+type preChain struct{ items []*pending.PreConfirmed }
+
+func (p preChain) Length() int                 { return len(p.items) }
+func (p preChain) Head() *pending.PreConfirmed { return p.items[len(p.items)-1] }
+func (p preChain) OldestFirst() iter.Seq[*pending.PreConfirmed] {
+	return func(yield func(*pending.PreConfirmed) bool) {
+		for _, it := range p.items {
+			if !yield(it) {
+				return
+			}
+		}
+	}
+}
+
+// CheckEventsPre (C09, "plus pre-confirmed blocks when asked"): with a pre-confirmed chain on top
+// of the head, a range that reaches above the head returns the canonical events followed by the
+// matching events of the pre-confirmed blocks in range, for every paging.
+func (k *checker) CheckEventsPre(f evFilter, pre []*chaingen.Block, chunks []uint64, limits []uint) {
+	pc := preChain{}
+	for _, b := range pre {
+		blk := CloneBlock(b.B)
+		blk.Hash = nil
+		pc.items = append(pc.items, &pending.PreConfirmed{Block: blk, StateUpdate: CloneStateUpdate(b.SU)})
+	}
+	want := f.scan(k.m.Chain)
+	for _, it := range pc.items {
+		n := it.Block.Number
+		if n < f.from || n > f.to {
+			continue
+		}
+		for ti, r := range it.Block.Receipts {
+			for ei, e := range r.Events {
+				if f.matches(e) {
+					want = append(want, flatEvent{n, "nil", r.TransactionHash.String(), uint(ti), uint(ei), e.From.String(), feltList(e.Keys), feltList(e.Data)})
+				}
+			}
+		}
+	}
+	cw := canon(want)
+	for _, ch := range chunks {
+		for _, lim := range limits {
+			got, pages := k.QueryEvents(f, ch, lim, func() (blockchain.PreConfirmedReader, error) { return pc, nil })
+			if cg := canon(got); cg != cw {
+				kind := "mismatch"
+				if len(want) > len(got) {
+					kind = "omitted"
+				} else if len(got) > len(want) {
+					kind = "extra"
+				}
+				k.fail("events_preconfirmed", kind, "event query %s over %d pre-confirmed blocks above head %d, chunk=%d limit=%d pages=%d: want %d events, got %d: %s", f, len(pre), k.m.Head().B.Number, ch, lim, pages, len(want), len(got), firstDiff(cw, cg))
+			}
+		}
+	}
+	if len(want) > len(f.scan(k.m.Chain)) {
+		k.n.c.Probe("preconfirmed_event_matched")
+	}
 }
 
 // CheckEvents (C09): concatenated pages equal the naive scan, for several chunk sizes / limits.
